@@ -54,7 +54,7 @@ IdealX(mode, ps, ms) ==        \* [x |-> <<..>>, X |-> <<..>>] in percent
 \*   pert  the caller has converted the reported component masses, in place, to another unit (factor 1/1000)
 MachX(mode, ps, pn, ms, pert, mut) ==
   LET k == Len(ps)
-      psn == IF mut = "stale_norm" THEN pn ELSE ps
+      psn == IF mut \in {"stale_norm", "operand_aliased"} THEN pn ELSE ps
       \* the component mass as the bare number it currently has (the code computes with unit-aware quantities)
       mm  == IF mut = "mass_unit_blind" /\ pert THEN [i \in 1..k |-> QDiv(ms[i], QI(1000))] ELSE ms
       massmode == mode = "MASS_FRACTION" /\ mut # "mass_mode_as_number"
@@ -116,6 +116,9 @@ SameObl(name, a, b, k) ==
 (*   perturb  the object of[1] after the caller converted every quantity   *)
 (*            it reports, in place, to another unit                        *)
 (*   again    the object of[1] observed once more (operands of a sum)      *)
+(*   step     the object of[1] changed in place by steps, observed         *)
+(* (a sum may have steps too: the RESULT is changed in place afterwards;   *)
+(* pre are the proportions before the steps)                               *)
 (* eff are the proportions the object then has (terms): what the           *)
 (* obligations speak about; the object has the first Len(eff) components.  *)
 (* form: "dict" | "text" (an expression string, proportions in any number  *)
@@ -124,7 +127,7 @@ SameObl(name, a, b, k) ==
 Other(mode) == IF mode = "MASS_FRACTION" THEN "NUMBER_FRACTION" ELSE "MASS_FRACTION"
 Obj(name, how, cls, mode, props, steps, of, eff) ==
   [name |-> name, how |-> how, cls |-> cls, mode |-> mode, props |-> props, steps |-> steps, of |-> of, eff |-> eff,
-   form |-> "", comp |-> 0, q |-> Q(0, 1)]
+   form |-> "", comp |-> 0, q |-> Q(0, 1), pre |-> eff]
 Objects(sc, k) ==
   LET pA == [i \in 1..k |-> Inp("A.p." \o IStr(i))]
       pB == [i \in 1..k |-> Inp("B.p." \o IStr(i))]
@@ -156,6 +159,22 @@ Objects(sc, k) ==
                   IN  << Obj("A", "build", sc.cls, sc.mode, pS, <<>>, <<>>, pS),
                          [Obj("R", "sumc", sc.cls, sc.mode, <<>>, <<>>, <<"A">>, pA) EXCEPT !.comp = k, !.q = pA[k]],
                          Obj("A2", "again", sc.cls, sc.mode, <<>>, <<>>, <<"A">>, pS) >>
+        \* A lacks the last component, B has all: R = A + B takes the last component from B.  Then the sum (j = 0)
+        \* or the operand B (j = 1) is changed in place by add(last, q) and the other one is observed again.
+        [] sc.kind = "sum_then_add" ->
+             LET pS  == SubSeq(pA, 1, k - 1)
+                 pR  == [i \in 1..k |-> IF i < k THEN Add(pA[i], pB[i]) ELSE pB[i]]
+                 up(p) == [i \in 1..k |-> IF i = k THEN Add(p[i], Inp("A.q")) ELSE p[i]]
+                 st  == <<[i |-> k, q |-> Inp("A.q")]>>
+                 Aa  == Obj("A", "build", sc.cls, sc.mode, pS, <<>>, <<>>, pS)
+                 Bb  == Obj("B", "build", sc.cls, sc.mode, pB, <<>>, <<>>, pB)
+                 A2  == Obj("A2", "again", sc.cls, sc.mode, <<>>, <<>>, <<"A">>, pS)
+             IN  IF sc.j = 0
+                 THEN << Aa, Bb, [Obj("R", "sum", sc.cls, sc.mode, <<>>, st, <<"A", "B">>, up(pR)) EXCEPT !.pre = pR],
+                         A2, Obj("B2", "again", sc.cls, sc.mode, <<>>, <<>>, <<"B">>, pB) >>
+                 ELSE << Aa, Bb, Obj("R", "sum", sc.cls, sc.mode, <<>>, <<>>, <<"A", "B">>, pR),
+                         [Obj("B3", "step", sc.cls, sc.mode, <<>>, st, <<"B">>, up(pB)) EXCEPT !.pre = pB],
+                         A2, Obj("R2", "again", sc.cls, sc.mode, <<>>, <<>>, <<"R">>, pR) >>
         [] sc.kind = "forms" ->                  \* the same material given as dict and as expression text
              << [A EXCEPT !.form = "dict"], [Obj("B", "build", sc.cls, sc.mode, pA, <<>>, <<>>, pA) EXCEPT !.form = "text"] >>
 Obligations(sc, k) ==
@@ -169,10 +188,16 @@ Obligations(sc, k) ==
              [] sc.kind = "perturbed"   -> SameObl("unit of a reported quantity changed", "A", "P", k)
              [] sc.kind = "sum_component" -> SameObl("operand unchanged", "A", "A2", Len(objs[1].eff))
              [] sc.kind = "forms"       -> SameObl("text form = dict form", "A", "B", k)
+             [] sc.kind = "sum_then_add" ->
+                  SameObl("operand unchanged", "A", "A2", k - 1)
+                  \o (IF sc.j = 0 THEN SameObl("operand unchanged after the sum was changed", "B", "B2", k)
+                      ELSE SameObl("sum unchanged after its operand was changed", "R", "R2", k))
              [] OTHER -> <<>>)
 
-\* environment of a whole scenario; F(mode, ps, pn, ms, pert) yields the fractions (ideal or machine)
-ScEnv(sc, ps, ms, F(_, _, _, _, _)) ==
+\* environment of a whole scenario; F(mode, ps, pn, ms, pert) yields the fractions (ideal or machine);
+\* mu = "operand_aliased": a sum keeps the Component objects of its right operand, so an in-place change of the one
+\* shows in the rows of the other while its norms stay
+ScEnv(sc, ps, ms, F(_, _, _, _, _), mu) ==
   LET k    == Len(ps)
       objs == Objects(sc, k)
       inp  == EnvSeq("inp:A.p.", ps, 1) @@ EnvSeq("inp:B.p.", [i \in 1..k |-> ps[k + 1 - i]], 1) @@ ("inp:A.q" :> <<2, 1>>)
@@ -183,11 +208,13 @@ ScEnv(sc, ps, ms, F(_, _, _, _, _)) ==
                  eff == EvalSeq(o.eff, env)
                  \* the proportions in force when the norms were last derived, if add() of an existing
                  \* component did not re-derive them: before the step / after the first operand's components
-                 pn  == IF o.how = "build" /\ o.steps # <<>> THEN EvalSeq(o.props, env)
-                        ELSE IF o.how = "sum" \/ (o.how = "sumc" /\ Len(o.eff) = Len(objs[1].eff)) THEN EvalSeq(objs[1].eff, env)
+                 pn  == IF o.steps # <<>> THEN EvalSeq(o.pre, env)
+                        ELSE IF (o.how = "sum" \/ o.how = "sumc") /\ Len(o.eff) = Len(objs[1].eff) THEN EvalSeq(objs[1].eff, env)
                         ELSE eff
+                 alias == mu = "operand_aliased" /\ sc.kind = "sum_then_add" /\ o.name \in {"B2", "R2"}
+                 effx == IF alias THEN [n \in 1..Len(eff) |-> IF n = Len(eff) THEN QAdd(eff[n], <<2, 1>>) ELSE eff[n]] ELSE eff
                  mo  == SubSeq(ms, 1, Len(eff))
-             IN  Go(i + 1, env @@ ObjEnv(o.name, mo, F(o.mode, eff, pn, mo, o.how = "perturb")))
+             IN  Go(i + 1, env @@ ObjEnv(o.name, mo, F(o.mode, effx, IF alias THEN eff ELSE pn, mo, o.how = "perturb")))
   IN  Go(1, inp)
 
 ---------------------------------------------------------------------------
@@ -203,12 +230,13 @@ Scenarios ==
       \cup {S("perturbed", c, <<1, 1>>, 0) : c \in cm}
       \cup {S("sum_component", c, <<1, 1>>, j) : c \in cm, j \in {0, 1}}
       \cup {S("forms", <<"material", md>>, <<1, 1>>, 0) : md \in Modes}
+      \cup {S("sum_then_add", c, <<1, 1>>, j) : c \in cm, j \in {0, 1}}
 
 VARIABLES comps, sc
 Init == comps = <<>> /\ sc = NoSc
 Next == /\ sc = NoSc
         /\ \/ Len(comps) < MaxK /\ \E p \in PVals, m \in MVals : comps' = Append(comps, [p |-> p, m |-> m]) /\ UNCHANGED sc
-           \/ Len(comps) >= 1 /\ \E s \in Scenarios : ((s.j = 2 \/ (s.kind = "sum_component" /\ s.j = 0)) => Len(comps) >= 2) /\ sc' = s /\ UNCHANGED comps
+           \/ Len(comps) >= 1 /\ \E s \in Scenarios : ((s.j = 2 \/ (s.kind = "sum_component" /\ s.j = 0) \/ s.kind = "sum_then_add") => Len(comps) >= 2) /\ sc' = s /\ UNCHANGED comps
 
 Ps == [i \in 1..Len(comps) |-> QI(comps[i].p)]
 Ms == [i \in 1..Len(comps) |-> QI(comps[i].m)]
@@ -223,12 +251,12 @@ Record == [kind |-> sc.kind, cls |-> sc.cls, mode |-> sc.mode, k |-> Len(comps),
 Sound ==
   sc # NoSc =>
     LET os == Obligations(sc, Len(comps)) IN
-    /\ AllHoldQ(os, ScEnv(sc, Ps, Ms, Ideal5))                 \* the obligations are theorems of the ideal formulas
-    /\ AllHoldQ(os, ScEnv(sc, Ps, Ms, Mach5))                  \* and the transcribed algorithm satisfies them
+    /\ AllHoldQ(os, ScEnv(sc, Ps, Ms, Ideal5, ""))             \* the obligations are theorems of the ideal formulas
+    /\ AllHoldQ(os, ScEnv(sc, Ps, Ms, Mach5, ""))              \* and the transcribed algorithm satisfies them
     /\ \A mu \in Mutants :                                     \* whatever differs from the ideal values is noticed
           LET MutF(md, ps, pn, ms, pert) == MachX(md, ps, pn, ms, pert, mu)
-              e == ScEnv(sc, Ps, Ms, MutF)
-          IN  e # ScEnv(sc, Ps, Ms, Ideal5) => ~AllHoldQ(os, e)
+              e == ScEnv(sc, Ps, Ms, MutF, mu)
+          IN  e # ScEnv(sc, Ps, Ms, Ideal5, "") => ~AllHoldQ(os, e)
     \* one record per structure and proportion vector (the model masses do not reach the harness)
     /\ (Emit /\ \A i \in 1..Len(comps) : comps[i].m = ((i - 1) % Cardinality(MVals)) + 1) => PrintT(ToJson(Record))
 =============================================================================
